@@ -58,6 +58,10 @@ def check_input(acc, root, m, cc, enc, d):
                 ctx = oracle.enc_context(w.events, root, enc, cc)
                 fp["requested"] = ctx["requested"]
                 fp["area_can_encrypt"] = ctx["area_can_encrypt"]
+                fp["failed_response"] = ctx["failed_response"]
+                # a problem reported inside the message that is being decoded (its session area may have been abandoned)
+                last_root = max((i for i, e in enumerate(w.events) if e[0] == "E" and e[1] == "" and e[3] == "..."), default=0)
+                fp["warned_in_message"] = any(e[0] == "W" for e in w.events[last_root:])
                 fp["inconsistent"] = ctx["requested"] != ctx["response_sessions_encrypt"]
         else:
             fp["at"] = oracle.tail_shape(w.details.get("violator") or w.details.get("path") or w.details.get("cpath"))
